@@ -14,6 +14,7 @@
 package cms
 
 import (
+	"sort"
 	"bufio"
 	"bytes"
 	"crypto"
@@ -1057,6 +1058,52 @@ func mutations(e *emitter, r *hx.Rng, s spec) {
 				return as
 			}), ext)
 			m("ct-resigned-same", "0", signed(func(as [][]byte) [][]byte { return as }), ext)
+			// two signers, one of them (first / last) with a contentType attribute naming another type, signed by its key
+			// holder: every signer info is judged, not only the one that is reported
+			{
+				o := s
+				o.key = otherKey(s.key)
+				o.pss = false
+				op, _ := splitSD(o.build())
+				certs2 := append(append([][]byte{}, p.certs...), op.certs[0])
+				wrong := signed(func(as [][]byte) [][]byte {
+					as[ctI] = mkAttr(pkcs7.OidAttributeContentType, oidTLV(oidOtherType))
+					return as
+				})
+				m("two-ct-wrong-first", "1", sdParts{p.ver, p.dalgs, p.ci, certs2, true, p.crls, [][]byte{wrong.sis[0], op.sis[0]}}, ext)
+				m("two-ct-wrong-last", "1", sdParts{p.ver, p.dalgs, p.ci, certs2, true, p.crls, [][]byte{op.sis[0], wrong.sis[0]}}, ext)
+				nomd := signed(func(as [][]byte) [][]byte { return append(as[:ctI], as[ctI+1:]...) })
+				m("two-ct-missing-first", "1", sdParts{p.ver, p.dalgs, p.ci, certs2, true, p.crls, [][]byte{nomd.sis[0], op.sis[0]}}, ext)
+			}
+			// the attribute list is stored in one order and signed in another (the DER SET OF order, or the reverse of the
+			// stored one): what is digested must be exactly what is emitted
+			{
+				storedVsSigned := func(stored, digested func(as [][]byte) [][]byte) sdParts {
+					return withSI(p, 0, func(x *siParts) {
+						base := append([][]byte{}, x.attrs...)
+						sig, err := leaves[s.key].key.Sign(nil, digestOf(s.hash, tl(0x31, digested(append([][]byte{}, base...))...)), s.hash)
+						if err != nil {
+							panic(err)
+						}
+						x.attrs = stored(append([][]byte{}, base...))
+						x.sig = sig
+					})
+				}
+				derSort := func(as [][]byte) [][]byte {
+					sort.Slice(as, func(i, j int) bool { return bytes.Compare(as[i], as[j]) < 0 })
+					return as
+				}
+				rev := func(as [][]byte) [][]byte {
+					for i, j := 0, len(as)-1; i < j; i, j = i+1, j-1 {
+						as[i], as[j] = as[j], as[i]
+					}
+					return as
+				}
+				unsorted := func(as [][]byte) [][]byte { return rev(derSort(as)) }
+				m("attrs-signed-sorted", "1", storedVsSigned(unsorted, derSort), ext)
+				m("attrs-signed-reversed", "1", storedVsSigned(func(as [][]byte) [][]byte { return as }, rev), ext)
+				m("attrs-stored-sorted", "0", storedVsSigned(derSort, derSort), ext)
+			}
 		}
 		// attribute-less reinterpretation: drop the attributes and present the attribute bytes as the content
 		{
@@ -1210,6 +1257,12 @@ func Handle(f []string) string {
 		if bytes.Equal(s, sig.SignerInfo.RawContent) {
 			siIdx = i
 		}
+	}
+	// the reported certificate must be the one the reported signer info names (issuer and serial number): the
+	// countersignature is looked up in that signer info and the chain is judged for that certificate
+	is := sig.SignerInfo.IssuerAndSerialNumber
+	if !bytes.Equal(is.IssuerName.FullBytes, sig.Certificate.RawIssuer) || is.SerialNumber == nil || is.SerialNumber.Cmp(sig.Certificate.SerialNumber) != 0 {
+		return fmt.Sprintf("ok cert=%d si=%d PAIR-MISMATCH", certIdx, siIdx)
 	}
 	return fmt.Sprintf("ok cert=%d si=%d", certIdx, siIdx)
 }
